@@ -263,49 +263,118 @@ def r3(c):
     c.check("C03.R3", ok, repo.loc(m, loop[0] if loop else fn), "apply_diff_rb/rows", "the rows examined are not the union of old and new", key_text="rows")
 
 
+def _all_unchanged_of(repo, m, test):
+    """if `test` says 'every entry of <collection> has op UNCHANGED' (an all(...) over the collection, or a helper that loops and returns False on the first other op):
+    the collection expression, else None"""
+    t = test
+    if isinstance(t, ast.Call) and call_name(t) == "all" and t.args and isinstance(t.args[0], (ast.GeneratorExp, ast.ListComp)) and len(t.args[0].generators) == 1:
+        g = t.args[0].generators[0]
+        e = t.args[0].elt
+        if not g.ifs and isinstance(g.target, ast.Name) and isinstance(e, ast.Compare) and len(e.ops) == 1 and isinstance(e.ops[0], ast.Eq):
+            l, r_ = e.left, e.comparators[0]
+            if op_const(l) == "UNCHANGED":
+                l, r_ = r_, l
+            if op_const(r_) == "UNCHANGED" and norm(l) in (f"{g.target.id}[0]", f"{g.target.id}.op"):
+                return g.iter
+    if isinstance(t, ast.Call) and isinstance(t.func, ast.Name) and isinstance(m.defs.get(t.func.id), ast.FunctionDef) and len(t.args) == 1:
+        h = m.defs[t.func.id]
+        body = [x for x in h.body if not (isinstance(x, ast.Expr) and isinstance(x.value, ast.Constant))]
+        if len(body) == 2 and isinstance(body[0], ast.For) and isinstance(body[0].target, ast.Name) and norm(body[0].iter) == h.args.args[0].arg \
+                and isinstance(body[1], ast.Return) and isinstance(body[1].value, ast.Constant) and body[1].value.value is True and len(body[0].body) == 1 \
+                and isinstance(body[0].body[0], ast.If) and len(body[0].body[0].body) == 1 and isinstance(body[0].body[0].body[0], ast.Return) \
+                and isinstance(body[0].body[0].body[0].value, ast.Constant) and body[0].body[0].body[0].value.value is False and not body[0].body[0].orelse:
+            tt = body[0].body[0].test
+            v = body[0].target.id
+            if isinstance(tt, ast.Compare) and len(tt.ops) == 1 and isinstance(tt.ops[0], ast.NotEq) and {norm(tt.left), norm(tt.comparators[0])} & {f"{v}[0]", f"{v}.op"} \
+                    and (op_const(tt.left) == "UNCHANGED" or op_const(tt.comparators[0]) == "UNCHANGED"):
+                return t.args[0]
+    return None
+
+
 def r4(c):
+    from sa import symexec
     repo = c.repo
-    c.rule("C03.R4", "strip_unchanged skips exactly items whose op is UNCHANGED and recurses into the children of every kept item; mark_unchanged rewrites only AFFECTED items "
-                     "all of whose (already marked) children are UNCHANGED; both keep row, children and match of every other item")
+    c.rule("C03.R4", "strip_unchanged keeps exactly the items whose op is not UNCHANGED, each as (op, row, strip_unchanged(children), match); mark_unchanged keeps every item, and "
+                     "rewrites the op to UNCHANGED only for an AFFECTED item all of whose (already marked) children are UNCHANGED; row and match of every item are untouched "
+                     "(decided on every path through one iteration of the item loop, the item's four components symbolic)")
     m = repo.module(PATCHING)
     for name in ("strip_unchanged", "mark_unchanged"):
         fn = repo.func(PATCHING, name)
         c.count("functions")
-        gm = GuardMap(fn)
-        pv = Provenance(fn)
-        loop = [st for st in fn.body if isinstance(st, ast.For)]
-        if len(loop) != 1 or not isinstance(loop[0].target, ast.Tuple) or len(loop[0].target.elts) != 4:
-            raise AnchorError(f"{name}: loop over 4-tuples not found")
-        opv, rowv, chv, mv = [e.id for e in loop[0].target.elts]
-        app = [x for x in calls_in(fn) if isinstance(x.func, ast.Attribute) and x.func.attr == "append"]
-        if len(app) != 1 or not isinstance(app[0].args[0], ast.Tuple):
-            raise AnchorError(f"{name}: single append of a tuple not found")
-        f = gm.formula(app[0], G.GuardEnv(rename=lambda s: "is_unchanged" if s in (f"Op.UNCHANGED == {opv}", f"{opv} == Op.UNCHANGED") else s))
-        e_op, e_row, e_ch, e_m = app[0].args[0].elts
-        if name == "strip_unchanged":
-            c.check("C03.R4", G.equivalent(f, G.Not(G.Atom("is_unchanged"))), repo.loc(m, app[0]), "strip_unchanged/keep-guard",
-                    f"item kept under {G.show(f)}; expected exactly op != UNCHANGED", key_text="keep-guard")
-            rec = [x for x in pv.origin_calls(e_ch, through_calls=False) if call_name(x) == name]
-            ok = bool(rec) and isinstance(rec[0].args[0], ast.Name) and rec[0].args[0].id == chv
-            c.check("C03.R4", ok, repo.loc(m, app[0]), "strip_unchanged/recursion", "children of a kept item are not stripped recursively (or are replaced)", key_text="recursion")
-            ok = isinstance(e_op, ast.Name) and all(d.stmt is loop[0] for d in pv.rd.defs(e_op))
-            c.check("C03.R4", ok, repo.loc(m, app[0]), "strip_unchanged/op", "op of a kept item is altered", key_text="op")
+        loops = [st for st in fn.body if isinstance(st, ast.For) and norm(st.iter) == fn.args.args[0].arg]
+        if len(loops) != 1:
+            raise AnchorError(f"{name}: loop over the diff items not found")
+        loop = loops[0]
+        E = [ast.Name(id=f"E{i}", ctx=ast.Load()) for i in range(4)]
+        env0 = {}
+        if isinstance(loop.target, ast.Tuple) and len(loop.target.elts) == 4 and all(isinstance(e, ast.Name) for e in loop.target.elts):
+            env0 = {e.id: E[i] for i, e in enumerate(loop.target.elts)}
+        elif isinstance(loop.target, ast.Name):
+            env0 = {loop.target.id: ast.Tuple(elts=list(E), ctx=ast.Load())}
         else:
-            c.check("C03.R4", f == G.T, repo.loc(m, app[0]), "mark_unchanged/keep-all", f"items are kept only under {G.show(f)}", key_text="keep-all")
-            # op rewrite
-            rew = [(d.stmt, d.value) for d in pv.rd.defs(e_op) if d.kind == "assign"] if isinstance(e_op, ast.Name) else []
-            ok = len(rew) == 1 and op_const(rew[0][1]) == "UNCHANGED"
-            if ok:
-                env = G.GuardEnv(rename=lambda s: {f"Op.AFFECTED == {opv}": "is_affected", f"{opv} == Op.AFFECTED": "is_affected"}.get(s, s))
-                ff = gm.formula(rew[0][0], env)
-                at = G.atoms(ff)
-                ok = G.implies(ff, G.Atom("is_affected")) and any(a.startswith("all(") and "Op.UNCHANGED" in a for a in at)
-            c.check("C03.R4", ok, repo.loc(m, app[0]), "mark_unchanged/rewrite", "UNCHANGED is assigned other than to an AFFECTED item all of whose children are UNCHANGED", key_text="rewrite")
-        for e, v in ((e_row, rowv), (e_m, mv)):
-            ok = isinstance(e, ast.Name) and e.id == v and all(d.stmt is loop[0] for d in pv.rd.defs(e))
-            c.check("C03.R4", ok, repo.loc(m, app[0]), f"{name}/item.{v}", f"`{v}` of the item is altered", key_text=f"{name}-{v}")
-        abrupt = [n for n in walk_no_nested(loop[0]) if isinstance(n, (ast.Break, ast.Return))]
-        c.check("C03.R4", not abrupt, repo.loc(m, loop[0]), f"{name}/no-early-exit", "loop exits early", key_text=f"{name}-exit")
+            raise AnchorError(f"{name}: loop over 4-tuples not found")
+
+        def ren(s_):
+            s_ = s_.replace(" ", "")
+            return {"E0==Op.UNCHANGED": "unch", "Op.UNCHANGED==E0": "unch", "E0==Op.AFFECTED": "aff", "Op.AFFECTED==E0": "aff"}.get(s_, s_)
+        genv = G.GuardEnv(rename=lambda s_: ren(s_))
+        kept = G.F
+        ok_shape, ok_rec, ok_op, ok_rm = True, True, True, True
+        n_app = 0
+        for p_ in symexec.paths(loop.body, env0):
+            f = G.And(*[(G.formula(t, genv) if pol else G.Not(G.formula(t, genv))) for t, pol in p_.conds])
+            if not G.satisfiable(f):
+                continue
+            apps = [s_ for k, o, s_ in p_.events if k == "call" and isinstance(o.func, ast.Attribute) and o.func.attr == "append" and s_.args]
+            if len(apps) > 1:
+                ok_shape = False
+            for ap in apps:
+                n_app += 1
+                kept = G.Or(kept, f)
+                t = ap.args[0]
+                if not (isinstance(t, ast.Tuple) and len(t.elts) == 4):
+                    ok_shape = False
+                    continue
+                e_op, e_row, e_ch, e_m = t.elts
+                if norm(e_row) != "E1" or norm(e_m) != "E3":
+                    ok_rm = False
+                if name == "strip_unchanged":
+                    if norm(e_op) != "E0":
+                        ok_op = False
+                    if not (isinstance(e_ch, ast.Call) and call_name(e_ch) == name and len(e_ch.args) == 1 and norm(e_ch.args[0]) == "E2"):
+                        ok_rec = False
+                else:
+                    marked = isinstance(e_ch, ast.Call) and call_name(e_ch) == name and len(e_ch.args) == 1 and norm(e_ch.args[0]) == "E2"
+                    if op_const(e_op) == "UNCHANGED":
+                        # only for an AFFECTED item whose marked children are all UNCHANGED
+                        tests = [(t_, pol) for t_, pol in p_.conds if pol and _all_unchanged_of(repo, m, t_) is not None]
+                        colls = [_all_unchanged_of(repo, m, t_) for t_, _ in tests]
+                        if not (G.implies(f, G.Atom("aff")) and marked and any(norm(c_) == norm(e_ch) for c_ in colls)):
+                            ok_op = False
+                    elif norm(e_op) == "E0":
+                        if G.implies(f, G.Atom("aff")) and not marked:
+                            ok_rec = False
+                        if not G.implies(f, G.Atom("aff")) and norm(e_ch) != "E2" and not marked:
+                            ok_rec = False
+                    elif isinstance(e_op, ast.IfExp) and op_const(e_op.body) == "UNCHANGED" and norm(e_op.orelse) == "E0":
+                        coll = _all_unchanged_of(repo, m, e_op.test)
+                        if not (G.implies(f, G.Atom("aff")) and marked and coll is not None and norm(coll) == norm(e_ch)):
+                            ok_op = False
+                    else:
+                        ok_op = False
+        at = repo.loc(m, loop)
+        if not n_app:
+            raise AnchorError(f"{name}: single append of a tuple not found")
+        if name == "strip_unchanged":
+            c.check("C03.R4", G.equivalent(kept, G.Not(G.Atom("unch"))), at, "strip_unchanged/keep-guard", f"item kept under {G.show(kept)}; expected exactly op != UNCHANGED", key_text="keep-guard")
+            c.check("C03.R4", ok_rec and ok_shape, at, "strip_unchanged/recursion", "children of a kept item are not stripped recursively (or are replaced)", key_text="recursion")
+            c.check("C03.R4", ok_op, at, "strip_unchanged/op", "op of a kept item is altered", key_text="op")
+        else:
+            c.check("C03.R4", G.equivalent(kept, G.T) and ok_shape, at, "mark_unchanged/keep-all", f"items are kept only under {G.show(kept)}", key_text="keep-all")
+            c.check("C03.R4", ok_op and ok_rec, at, "mark_unchanged/rewrite", "UNCHANGED is assigned other than to an AFFECTED item all of whose (marked) children are UNCHANGED", key_text="rewrite")
+        c.check("C03.R4", ok_rm, at, f"{name}/item.row-match", "row or match of an item is altered", key_text=f"{name}-row-match")
+        abrupt = [n for n in walk_no_nested(loop) if isinstance(n, (ast.Break, ast.Return))]
+        c.check("C03.R4", not abrupt, at, f"{name}/no-early-exit", "loop exits early", key_text=f"{name}-exit")
 
 
 def r5(c):
